@@ -187,10 +187,49 @@ pub fn random_string(r: &mut Rng, max: usize) -> String {
 // ---------------------------------------------------------------------------------------------------
 // token alphabets and exhaustive sequence decoding
 
+/// Rewrites some literal tokens into another documented spelling of the same value: hexadecimal integers,
+/// exponent floats. Only spellings the reference lexer reads back as the same single token are used.
+pub fn respell_literals(toks: &mut [Tok], r: &mut Rng) -> usize {
+    let mut n = 0;
+    for t in toks.iter_mut() {
+        if !r.chance(1, 2) {
+            continue;
+        }
+        let s = match t {
+            Tok::Int(i) if *i >= 0 => {
+                if r.chance(1, 2) {
+                    format!("0x{:x}", i)
+                } else {
+                    format!("0x{:X}", i)
+                }
+            },
+            Tok::Float(f) if f.is_finite() && *f >= 0.0 => match r.below(3) {
+                0 => format!("{:e}", f),
+                1 => format!("{:E}", f),
+                _ => format!("{:e}", f).replace("e-", "E-").replace('e', "e+").replace("e+-", "e-"),
+            },
+            _ => continue,
+        };
+        if let Ok(l) = lex(&s) {
+            if l.toks.len() == 1 && !l.unclaimed && l.toks[0] == *t && l.toks[0].text() != s {
+                *t = Tok::Spelled(Box::new(t.clone()), s);
+                n += 1;
+            }
+        }
+    }
+    n
+}
+
 pub fn tok(s: &str) -> Tok {
     let l = lex(s).expect("alphabet token must lex");
     assert!(l.toks.len() == 1, "alphabet entry {:?} is not a single token", s);
-    l.toks.into_iter().next().unwrap()
+    let t = l.toks.into_iter().next().unwrap();
+    if t.text() != s {
+        // `0x1e`, `1E+3`, `.5`: keep the way it is written
+        Tok::Spelled(Box::new(t), s.to_string())
+    } else {
+        t
+    }
 }
 
 /// A16 of DESIGN §3.5
@@ -220,7 +259,7 @@ pub fn alphabet23() -> Vec<Tok> {
 pub fn alphabet_all() -> Vec<Tok> {
     let mut v: Vec<Tok> = crate::refmodel::lex::OPS.iter().map(|o| tok(o)).collect();
     // (the last three are words the documentation does not define; a separator must not change them either)
-    for w in ["1", "2.5", "0x1f", "1e3", "a", "f", "x", "true", "\"s\"", "\"/*\"", "1e", "9223372036854775808", "0xffffffffffffffffff", "1e999", "\")\\\"\"", "\"(\"", "0x1e", "2E", "#", "#a", "\\", "a\\", "and", "or", "not", "ī", "н"] {
+    for w in ["1", "2.5", "0x1f", "1e3", "a", "f", "x", "true", "\"s\"", "\"/*\"", "1e", "9223372036854775808", "0xffffffffffffffffff", "1e999", "\")\\\"\"", "\"(\"", "0x1e", "2E", "#", "#a", "\\", "a\\", "and", "or", "not", "ī", "н", ".5", "5.", "1E+3", "007", "r", "if"] {
         v.push(tok(w));
     }
     v
@@ -371,7 +410,8 @@ pub const LINE_COMMENTS: [&str; 8] = [
 ];
 
 /// characters a comment body is drawn from (anything goes inside a comment)
-const COMMENT_CHARS: [char; 28] = [
+const COMMENT_CHARS: [char; 40] = [
+    '\u{0}', '\u{1}', '\u{7f}', '\u{1b}', '\u{202a}', '\u{202e}', '\u{2066}', '\u{2069}', '\u{200f}', '\u{feff}', '#', '\'',
     'a', '1', ' ', '+', '-', '*', '/', '=', '"', '\\', '(', ')', ';', ',', '\r', '\t', 'é', '日', '😀', '\u{301}', '\u{2028}', '\u{85}',
     '\u{b}', '&', '|', '<', 'e', '.',
 ];
